@@ -62,6 +62,12 @@ func cgroupFileWriteIfDifferent(cgroupTaskDir string, r sysutil.Resource, value 
 	if r.ResourceType() == sysutil.CPUSetCPUSName && cpuset.IsEqualStrCpus(currentValue, value) {
 		return false, nil
 	}
+	if r.ResourceType() == sysutil.CPUCFSQuotaName && sysutil.IsCgroupV2Resource(r) {
+		// cpu.max reads "$QUOTA $PERIOD": compare the quota only
+		if fields := strings.Fields(currentValue); len(fields) == 2 && fields[0] == value {
+			return false, nil
+		}
+	}
 	if value == currentValue || value == CgroupMaxValueStr && currentValue == CgroupMaxSymbolStr {
 		// compatible with cgroup valued "max"
 		klog.V(6).Infof("read before write %s and got str value, considered as MaxInt64", r.Path(cgroupTaskDir))
